@@ -243,6 +243,12 @@ def run(ctx: Ctx):
                 'out int i0;\nout str[3] s1;\nfinishcode F0;\nparser {\n "da";\n loop l1 {\n  try {\n   "\\n1"i;\n   finish F0;\n  }\n  catch (nomatch, outofspace) {\n   s1 += "b 2";\n  }\n  if i0 + \'0\' != \'b\' {\n   break;\n  }\n }\n "e"i;\n}\n',
                 'out int i0;\nhook h;\nparser {\n loop {\n  "a";\n  if i0 == 1 {\n   finish;\n  }\n  if i0 == 2 {\n   break;\n  }\n }\n "z";\n}\n']:
         progs.append((None, src, [], "tiny"))
+    # widths chosen from counts: the state member (values 0..number of states, the extra one is the finished state), string length counters
+    # (0..capacity, unterminated strings reach the capacity itself), around 256
+    for n in (253, 254, 255, 256, 257):
+        progs.append((None, 'parser {\n "%s";\n finish;\n}\n' % ("a" * n), [], "tiny"))
+    for n in (255, 256, 257):
+        progs.append((None, 'out %sstr[%d] s;\nout int n = 0;\nparser {\n try {\n  s += /[a-z]+/;\n  ";";\n }\n catch (outofspace) {\n  n = [s.len];\n }\n}\n' % (rng.choice(["", "unterminated "]), n), [], "tiny"))
     rows, uncovered = covering_rows(rng, n_rows, 2 if quick else 3)
     ctx.extra["covering_rows"] = len(rows)
     ctx.extra["uncovered_%s_way_combinations" % (2 if quick else 3)] = uncovered
